@@ -7,6 +7,7 @@ import (
 
 	"github.com/go-i2p/common/certificate"
 	"github.com/go-i2p/common/data"
+	"github.com/go-i2p/common/destination"
 	"github.com/go-i2p/common/encrypted_leaseset"
 	"github.com/go-i2p/common/keys_and_cert"
 	"github.com/go-i2p/common/lease"
@@ -329,6 +330,69 @@ func runC14(c *core.Ctx) {
 			s, err := p.Bytes()
 			return s, 0, err
 		})
+		// a signing (revocation) key whose length is not that of the destination's signing type:
+		// either the constructor refuses, or what it returns validates and round-trips.
+		// Destinations with a NULL certificate (DSA) only come from the parser.
+		if i%4 == 1 {
+			var d *destination.Destination
+			dst := st
+			if i%8 == 1 {
+				dk, _ := rm.NewSigKey(0, r)
+				km, _ := gen.KACOf(r, 0, 0)
+				km.Cert = rm.Cert{Type: rm.CertNull, Payload: []byte{}}
+				copy(km.Block[384-len(dk.Pub):], dk.Pub)
+				if pd, _, err := destination.ReadDestination(km.Encode()); err == nil {
+					d, dst = &pd, 0
+				}
+				if p0, err := lib.LibSigningPrivateKey(dk); err == nil {
+					priv = p0
+				}
+			} else {
+				d, _, _ = lib.BuildDestination(m.Dest)
+			}
+			ek, _ := lib.CryptoKeyOf(0, m.EncKey)
+			var ll []lease.Lease
+			for _, x := range m.Leases {
+				if l, err := lib.BuildLease(x); err == nil {
+					ll = append(ll, *l)
+				}
+			}
+			for _, wt := range []int{7, 1, 2, 0} {
+				wl, _ := rm.SigPubLen(wt)
+				dl, _ := rm.SigPubLen(dst)
+				if d == nil || ek == nil || wl == dl {
+					continue
+				}
+				kb := r.Bytes(wl)
+				if wt == 0 {
+					gen.DSAInRange(kb)
+				}
+				sk, err := lib.SigningKeyOf(wt, kb)
+				if err != nil {
+					continue
+				}
+				var ls2 *lease_set.LeaseSet
+				var cerr error
+				site := "lease_set.NewLeaseSet"
+				if p, _, _ := c.Call(site, nil, func() { ls2, cerr = lease_set.NewLeaseSet(*d, ek, sk, ll, priv) }); p {
+					continue
+				}
+				c.Eval(1)
+				sh2 := gen.Shape{"class": "signing-key-length-differs-from-destination-type", "dest_sig": dst, "key_sig": wt, "null_cert": i%8 == 1}
+				if cerr != nil || ls2 == nil {
+					c.Bucket("defect/lease_set.NewLeaseSet/signing key length differs from the destination's type: rejected")
+					continue
+				}
+				c14Chain(c, site, sh2, nil, ls2.Validate, ls2.Bytes, func(b []byte) ([]byte, int, error) {
+					p, err := lease_set.ReadLeaseSet(b)
+					if err != nil {
+						return nil, 0, err
+					}
+					s, err := p.Bytes()
+					return s, 0, err
+				})
+			}
+		}
 		// (c) count out of range
 		if i%10 == 0 {
 			d, _, _ := lib.BuildDestination(m.Dest)
